@@ -88,6 +88,17 @@ def directed_fanout(rnd, with_env):
     return spec, [[rnd.randrange(1, 1 << (rsize - 1)) for _ in range(5)]]
 
 
+def directed_two_inputs(rnd):
+    """one processor reading two external inputs and forwarding each: the valid line of every external input must reach its reader"""
+    rsize = rnd.choice([8, 16])
+    pad = ["nop"] * 3
+    prog = ["i2rw r0 i0"] + pad + ["i2rw r1 i1"] + pad + ["r2owa r0 o0"] + pad + ["r2owa r1 o1"] + pad + ["j 0"]
+    ops = sorted(set(l.split()[0] for l in prog) | {"nop", "j"})
+    spec = {"rsize": rsize, "procs": [{"arch": {"R": 2, "N": 2, "M": 2, "L": 0, "O": 5, "ops": ops, "mode": "ha", "rsize": rsize}, "prog": prog}],
+            "inputs": 2, "outputs": 2, "bonds": [["p0i0", "i0"], ["p0i1", "i1"], ["o0", "p0o0"], ["o1", "p0o1"]]}
+    return spec, [[rnd.randrange(1, 100) for _ in range(5)], [rnd.randrange(100, 200) for _ in range(2)]]
+
+
 def go_streams(ticks, nout):
     outs = [[] for _ in range(nout)]
     prev = [False] * nout
@@ -120,7 +131,7 @@ def run(res, a):
     C.build_harness()
     rnd = random.Random(a.seed)
     n = 10 if a.tier == "quick" else 120
-    cases = [directed_fanout(rnd, False), directed_fanout(rnd, True)] + [gen_machine(rnd) for _ in range(n)]
+    cases = [directed_fanout(rnd, False), directed_fanout(rnd, True), directed_two_inputs(rnd)] + [gen_machine(rnd) for _ in range(n)]
     if a.replay:
         rp = json.load(open(a.replay))["replay"]
         cases = [(rp["machine"], rp["streams"])]
@@ -172,11 +183,23 @@ def run(res, a):
             viol.append(("the generated Verilog cannot be executed by the Verilog semantics: %s" % e, meta))
             continue
         gs = go_streams(g["ticks"], spec["outputs"])
+        # the tick of the simulator's last delivery: when it is early, the (slower) hardware has had the time to deliver everything too
+        last = 0
+        prevv = [False] * spec["outputs"]
+        for ti, t in enumerate(g["ticks"]):
+            for oo in range(spec["outputs"]):
+                if t["outv"][oo] and not prevv[oo]:
+                    last = ti
+                prevv[oo] = t["outv"][oo]
         for oidx, (x, y) in enumerate(zip(gs, hs)):
             m = min(len(x), len(y))
             hist["values_compared"] += m
             if x[:m] != y[:m]:
                 viol.append(("external output %d: the simulator delivers %s, the generated hardware %s" % (oidx, x, y), meta))
+                break
+            if len(y) > len(x) or (last <= 180 and len(y) < len(x)):
+                viol.append(("external output %d: the simulator delivers %s (last delivery at tick %d of %d), the generated hardware %s within 700 clocks"
+                             % (oidx, x, last, len(g["ticks"]), y), meta))
                 break
             if m < 2:
                 viol.append(("external output %d makes no progress within the horizon (simulator %s, hardware %s)" % (oidx, x, y), meta))
